@@ -147,6 +147,22 @@ func c11Case(run *ev.Run, srv *svc.Server, cs *svc.ClientSet, kind svc.Kind, pro
 		overlap = "trailer+error"
 	}
 	prog := &svc.Program{Header: respH, Trailer: respT}
+	if r.Intn(3) == 0 {
+		// the handler writes one trailer and one header straight into the maps
+		// under a lower-case spelling (http.Header is a map; not everybody goes
+		// through Set/Add). The same two names are used by every such call on
+		// these shared handlers, each with its own value.
+		tv, hv := fmt.Sprintf("cost-%d", r.Intn(1_000_000)), fmt.Sprintf("lane-%d", r.Intn(1_000_000))
+		respT["X-Lower-Cost"] = []string{tv}
+		respH["X-Lower-Lane"] = []string{hv}
+		pt, ph := respT.Clone(), respH.Clone()
+		delete(pt, "X-Lower-Cost")
+		delete(ph, "X-Lower-Lane")
+		pt["x-lower-cost"] = []string{tv}
+		ph["x-lower-lane"] = []string{hv}
+		prog = &svc.Program{Header: ph, Trailer: pt}
+		overlap += "+lower-case-map-keys"
+	}
 	var replies []*gen.Msg
 	switch kind {
 	case svc.Unary, svc.ServerStream:
